@@ -467,15 +467,37 @@ def h_svd(ctx, D, P):
     ctx.eq(plain(A.data), X, 'input unchanged')
 
 
-def h_eig(ctx, n, D, P, cplx1=False):
+def h_eig(ctx, n, D, P, cplx1=False, cplx0=False):
     """general eigendecomposition, D <= 2, real distinct eigenvalues; cplx1: the first-order
     coefficient is complex while A_0 is real"""
     algopy = symx.load_algopy()
     A0s = []
     for p in range(P):
-        Q0 = V(ctx, 'Q%d' % p, (n, n))
-        det = Q0[0, 0] * Q0[1, 1] - Q0[0, 1] * Q0[1, 0]
-        ctx.assume(det != 0)
+        if cplx0 == 'hermitian':
+            # A(t) Hermitian: unitary Q0 = R(u) diag(1, e^{i phi}) with e^{i phi} rational in w
+            R = rot2(ctx, 'h%d' % p)
+            w = ctx.var('w%d' % p)
+            one = 1.0 if ctx.mode == 'float' else S.const(1)
+            cphi, sphi = (one - w * w) / (one + w * w), 2 * w / (one + w * w)
+            ph = complex(cphi, sphi) if ctx.mode == 'float' else S.SymC(cphi, sphi)
+            Q0 = np.empty((n, n), dtype=object)
+            Q0[0, 0], Q0[1, 0] = R[0, 0] + 0 * ph, R[1, 0] + 0 * ph
+            Q0[0, 1], Q0[1, 1] = R[0, 1] * ph, R[1, 1] * ph
+            det = Q0[0, 0] * Q0[1, 1] - Q0[0, 1] * Q0[1, 0]
+        elif cplx0:
+            # complex A_0 with a real spectrum and complex eigenvectors
+            Q0 = np.empty((n, n), dtype=object)
+            for idx in np.ndindex(n, n):
+                Q0[idx] = ctx.cvar('Q%d%s' % (p, list(idx)))
+            det = Q0[0, 0] * Q0[1, 1] - Q0[0, 1] * Q0[1, 0]
+            if ctx.mode == 'sym':
+                ctx.assume(det.re * det.re + det.im * det.im != 0)
+            else:
+                ctx.assume(abs(det) > 1e-2)
+        else:
+            Q0 = V(ctx, 'Q%d' % p, (n, n))
+            det = Q0[0, 0] * Q0[1, 1] - Q0[0, 1] * Q0[1, 0]
+            ctx.assume(det != 0)
         lam = [ctx.var('lam%d_%d' % (p, i)) for i in range(n)]
         ctx.assume(lam[0] != lam[1])
         Lm = np.empty((n, n), dtype=object)
@@ -485,15 +507,23 @@ def h_eig(ctx, n, D, P, cplx1=False):
         if ctx.mode == 'sym':
             Qi = npx.exact_inv(Q0)
         else:
-            Qi = np.linalg.inv(np.array(Q0.tolist(), dtype=float))
+            Qi = np.linalg.inv(np.array(Q0.tolist(), dtype=complex if cplx0 else float))
         A0 = mat(mat(Q0, Lm), Qi)
         if ctx.mode == 'sym':
             stubs.register('eig', A0, (np.array(lam, dtype=object), Q0))
         A0s.append(A0)
-    X = build_input(ctx, A0s, D, (n, n), cplx=cplx1)
-    if cplx1 and ctx.mode == 'float':
+    cplx = cplx1 or cplx0
+    X = build_input(ctx, A0s, D, (n, n), cplx=cplx)
+    if cplx0 == 'hermitian':
+        for d in range(1, D):
+            for p in range(P):
+                a, b, c_, e = ctx.var('ha%d_%d' % (d, p)), ctx.var('hb%d_%d' % (d, p)), ctx.var('hc%d_%d' % (d, p)), ctx.var('he%d_%d' % (d, p))
+                mk = (lambda re, im: complex(re, im)) if ctx.mode == 'float' else (lambda re, im: S.SymC(S.lift(re), S.lift(im)))
+                X[d, p, 0, 0], X[d, p, 1, 1] = mk(a, 0), mk(e, 0)
+                X[d, p, 0, 1], X[d, p, 1, 0] = mk(b, c_), mk(b, -c_)
+    if cplx and ctx.mode == 'float':
         X = np.array(X.tolist(), dtype=complex)
-    A = mk_utpm(ctx, algopy, X, complex) if (cplx1 and ctx.mode == 'sym') else mk_utpm(ctx, algopy, X)
+    A = mk_utpm(ctx, algopy, X, complex) if (cplx and ctx.mode == 'sym') else mk_utpm(ctx, algopy, X)
     l, Q = algopy.eig(A)
     ld, Qd = plain(l.data), plain(Q.data)
     for p in range(P):
@@ -580,5 +610,7 @@ def units(tier, seed):
         add('%s/2x2/Fortran order/D2,P1' % variant, 'h_lu', o=F, n=2, D=2, P=1, variant=variant)
     add('eig/2x2/D2,P1', 'h_eig', o={'validate_values': False}, n=2, D=2, P=1)
     add('eig/2x2/D2,P2', 'h_eig', o={'validate_values': False}, n=2, D=2, P=2)
+    add('eig/2x2 complex A0 with real spectrum/D2,P1', 'h_eig', o={'validate_values': False}, n=2, D=2, P=1, cplx0=True)
+    add('eig/2x2 Hermitian A(t)/D2,P1', 'h_eig', o={'validate_values': False}, n=2, D=2, P=1, cplx0='hermitian')
     add('eig/2x2 real A0, complex A1/D2,P1', 'h_eig', o={'validate_values': False}, n=2, D=2, P=1, cplx1=True)
     return out
